@@ -97,8 +97,16 @@ Example eq_merged_example :
 Proof.
   split; [apply wf_mk; simpl; lia|]. split; [apply wf_mk; simpl; lia|].
   split; [|split].
-  - split; [intros _; vm_compute; repeat constructor | intros _; reflexivity].
-  - split; [intros _; vm_compute; repeat constructor | intros _; reflexivity].
+  - split; [intros _ | intros _; reflexivity].
+    change (jdt fadd64 split_pulse) with (jdt64 split_pulse). change (jdt fadd64 merged_pulse) with (jdt64 merged_pulse).
+    replace (jdt64 split_pulse) with [(3, -2); (1, 0)] by (vm_compute; reflexivity).
+    replace (jdt64 merged_pulse) with [(3, -2); (1, 0)] by (vm_compute; reflexivity).
+    repeat (constructor; [intros _; reflexivity|]). constructor.
+  - split; [intros _ | intros _; reflexivity].
+    change (jdt fadd64 split_pulse) with (jdt64 split_pulse). change (jdt fadd64 merged_pulse) with (jdt64 merged_pulse).
+    replace (jdt64 split_pulse) with [(3, -2); (1, 0)] by (vm_compute; reflexivity).
+    replace (jdt64 merged_pulse) with [(3, -2); (1, 0)] by (vm_compute; reflexivity).
+    repeat (constructor; [intros _; reflexivity|]). constructor.
   - repeat split; vm_compute; reflexivity.
 Qed.
 
